@@ -7,6 +7,18 @@ R = '/verif'
 out = []
 kf = json.load(open(R + '/known_findings.json'))
 
+man = json.load(open(R + '/MANIFEST.json'))
+out.append('#### T0. What each registered check decides (claim texts of MANIFEST.json) and what it leaves assumed\n')
+for c in man['checks']:
+    note = c['level_note']
+    i = note.find('(A-LEN). ')
+    if i >= 0:
+        note = note[i + 9:]
+    out.append('* **%s** - %s  \n  *Left assumed / not covered:* %s' % (c['property_id'], c['level_claimed']['text'], note or 'nothing beyond the common trusted base (9.5).'))
+out.append('')
+for n in man.get('not_applicable', []):
+    out.append('* **%s** - not claimed: %s' % (n['property_id'], n['reason']))
+out.append('')
 out.append('#### T1. Per-property numbers of the last quick run on the unchanged tree (from evidence/*.json)\n')
 out.append('| property | level | functions under contract (incl. dependency closure) | obligations to discharge | discharged | excluded by known findings | wall s |')
 out.append('|---|---|---|---|---|---|---|')
